@@ -1372,6 +1372,12 @@ static int process_table(fb_parser_t *P, fb_compound_type_t *ct)
         /* Size efficient ordering. */
         ct->ordered_members = align_order_members(P, (fb_member_t *)ct->members);
     }
+    for (sym = ct->members; !id_failed && need_id && sym; sym = sym->link) {
+        if (((fb_member_t *)sym)->type.type == vt_invalid) {
+            /* Reported above before its id was recorded: the fields cannot be relinked by id. */
+            id_failed = 1;
+        }
+    }
     if (!id_failed && need_id && count > 0) {
         field_index = P->tmp_field_index;
         memset(field_index, 0, sizeof(field_index[0]) * (size_t)P->opts.vt_max_count);
